@@ -15,6 +15,7 @@ CONSTANTS EmitEdges, \* TRUE: every value-graph transition is printed too (histo
           KJson,    \* alternative / invalid JSON spellings are derived from values at depth < KJson
           KRe,      \* non-minimal TL2 re-encodings are derived from values at depth < KRe
           KMut2,    \* byte mutations of TL2 encodings are applied to values at depth < KMut2
+          KBad,     \* invalid values (wrong dynamic tuple length) are derived from values at depth < KBad
           KFn       \* function results: result values up to KFn modifications, for requests at depth < KFn + 1
 
 VARIABLE st
@@ -66,7 +67,11 @@ StepFn == /\ st.kind = "val" /\ TY(st.tn).fn /\ KFn > 0 /\ st.k <= KFn
 StepFnMod == /\ st.kind = "fn" /\ st.k < KFn
              /\ \E w \in Mods(TY(st.tn).res, ResEnv(st.tn, st.q), st.r) : st' = [st EXCEPT !.r = w, !.k = @ + 1]
 
-Next == StepVal \/ StepMut \/ StepJson \/ StepRe \/ StepMut2 \/ StepFn \/ StepFnMod
+(* a value whose array length disagrees with its size parameter: writers must refuse it *)
+StepBad == /\ st.kind = "val" /\ st.k < KBad /\ TY(st.tn).tl2 /\ ~TY(st.tn).origin2
+           /\ \E w \in BadMods(st.tn, NoEnv, st.v) : st' = [kind |-> "bad", tn |-> st.tn, v |-> w, k |-> 0]
+
+Next == StepVal \/ StepMut \/ StepJson \/ StepRe \/ StepMut2 \/ StepFn \/ StepFnMod \/ StepBad
 
 View == [st EXCEPT !.k = 0]
 
@@ -94,6 +99,9 @@ Payload ==
         hastl2 |-> TY(st.tn).tl2,
         tl2 |-> IF TY(st.tn).tl2 THEN Enc2(st.tn, st.v, FALSE) ELSE <<>>,
         json |-> WJ(st.tn, NoEnv, st.v, "canon")]
+  ELSE IF st.kind = "bad"
+  THEN [kind |-> "bad", tn |-> st.tn, tl2 |-> Enc2(st.tn, st.v, FALSE),
+        writable |-> Enc1(st.tn, NoEnv, st.v, TRUE).ok]
   ELSE IF st.kind = "fn"
   THEN LET t == TY(st.tn)  renv == ResEnv(st.tn, st.q)
            e2 == Enc2(t.res, st.r, TRUE) IN
@@ -147,6 +155,10 @@ FnResultRoundTrip ==
     LET t == TY(st.tn)  renv == ResEnv(st.tn, st.q)
         e == Enc1(t.res, renv, st.r, t.resBare) IN
     e.ok /\ LET d == Dec1(t.res, renv, e.b, 1, t.resBare) IN d.ok /\ d.v = st.r /\ d.pos = Len(e.b) + 1
+(* a value is TL1-writable iff its array lengths agree with their size parameters *)
+WriteErrorIffInvalid1 ==
+  st.kind = "bad" => /\ ~Valid1(st.tn, NoEnv, st.v)
+                     /\ ~Enc1(st.tn, NoEnv, st.v, TRUE).ok /\ ~Enc1(st.tn, NoEnv, st.v, FALSE).ok
 ValuesValid == st.kind = "val" /\ ~TY(st.tn).origin2 => Valid1(st.tn, NoEnv, st.v)
 (* whatever is accepted re-encodes, and the re-encoding decodes to the same value *)
 Canonical1 ==
